@@ -234,6 +234,44 @@ func plans(tp tierParams) []plan {
 	return ps
 }
 
+// restartPlans: small alphabets, every sequence of length 3 (quick) / 4 (thorough),
+// restarted before every step but the first.
+func restartPlans(tp tierParams) []plan {
+	T, F := true, false
+	L := 3
+	if tp.full {
+		L = 4
+	}
+	var ps []plan
+	for _, c := range []Cfg{
+		{Has: has(F, F, T), H: 2},
+		{Has: has(F, F, T), Sco: T, H: 2},
+		{Has: has(F, F, T), Sco: T, Scod: 2, H: 3},
+		{Has: has(F, T, T), H: 2},
+		{Has: has(F, T, T), Sco: T, H: 2},
+		{Has: has(F, T, T), Rst: has(F, F, T), H: 2},
+		{Has: has(F, F, T), H: 2, Batch: T},
+		{Has: has(F, F, T), Sco: T, H: 2, Batch: T},
+		{Has: has(F, T, T), Sco: T, H: 2, Batch: T, All: T},
+	} {
+		dts := []int{1}
+		if c.Scod > 0 {
+			dts = []int{1, 2}
+		}
+		a := alphabet(c, dts)
+		l := L
+		lim := 1000
+		if tp.full {
+			lim = 20000
+		}
+		for l > 2 && pow(len(a), l) > lim {
+			l--
+		}
+		ps = append(ps, plan{cfg: c, alpha: a, L: l})
+	}
+	return ps
+}
+
 // enumerate calls f with every sequence of exactly L steps over alpha.
 func enumerate(alpha []Step, L int, f func(Seq)) {
 	idx := make([]int, L)
@@ -348,6 +386,7 @@ func Run(r *rt.Run) error {
 	cfgSeen := map[Cfg]bool{}
 	maxL, minL := 0, 1<<30
 	nseq := 0
+	nrestart := 0
 
 	// Pipeline: the producer (this goroutine's closure below) enumerates chunks in a
 	// fixed order; tp.workers executors - each with its own TaskMaster, alert service
@@ -358,6 +397,7 @@ func Run(r *rt.Run) error {
 		seqs []Seq
 		ids  []string
 		doc  bool
+		cut  int // restart the task before this step (-1: never)
 		done chan chunkResult
 	}
 	jobs := make(chan *job, tp.workers)
@@ -371,18 +411,18 @@ func Run(r *rt.Run) error {
 		execs[w] = x
 		go func() {
 			for j := range jobs {
-				obs, rep := x.Run(j.cfg, j.seqs, j.ids)
+				obs, rep := x.Run(j.cfg, j.seqs, j.ids, j.cut)
 				j.done <- chunkResult{obs, rep}
 			}
 		}()
 	}
-	submit := func(cfg Cfg, seqs []Seq, doc bool) {
+	submit := func(cfg Cfg, seqs []Seq, doc bool, cut int) {
 		ids := make([]string, len(seqs))
 		for i := range seqs {
 			nid++
 			ids[i] = fmt.Sprintf("s%d", nid)
 		}
-		j := &job{cfg: cfg, seqs: seqs, ids: ids, doc: doc, done: make(chan chunkResult, 1)}
+		j := &job{cfg: cfg, seqs: seqs, ids: ids, doc: doc, cut: cut, done: make(chan chunkResult, 1)}
 		order <- j
 		jobs <- j
 	}
@@ -390,7 +430,7 @@ func Run(r *rt.Run) error {
 		// the documented worked example with its numeric thresholds (first, so that it
 		// also shows up in the evidence samples)
 		dc, ds := docExample()
-		submit(dc, ds, true)
+		submit(dc, ds, true, -1)
 		// systematic part
 		for _, p := range plans(tp) {
 			cfgSeen[p.cfg] = true
@@ -407,12 +447,33 @@ func Run(r *rt.Run) error {
 				steps += len(s)
 				nseq++
 				if steps+p.L > maxChunkSteps {
-					submit(p.cfg, chunk, false)
+					submit(p.cfg, chunk, false, -1)
 					chunk, steps = nil, 0
 				}
 			})
 			if len(chunk) > 0 {
-				submit(p.cfg, chunk, false)
+				submit(p.cfg, chunk, false, -1)
+			}
+		}
+		// restart family: the task is stopped and started again (same topic, the daemon
+		// keeps running) before step `cut`; the new alert node restores the ID's level
+		// and times from the topic.  Only configurations where the restored state is the
+		// true state: no flapping, recoveries delivered.
+		for _, p := range restartPlans(tp) {
+			cfgSeen[p.cfg] = true
+			for cut := 1; cut < p.L; cut++ {
+				var chunk []Seq
+				enumerate(p.alpha, p.L, func(s Seq) {
+					chunk = append(chunk, s)
+					nrestart++
+					if (len(chunk)+1)*p.L > maxChunkSteps {
+						submit(p.cfg, chunk, false, cut)
+						chunk = nil
+					}
+				})
+				if len(chunk) > 0 {
+					submit(p.cfg, chunk, false, cut)
+				}
 			}
 		}
 		// random part
@@ -423,7 +484,7 @@ func Run(r *rt.Run) error {
 			for j := range seqs {
 				seqs[j] = randomSeq(r.Rand, c, tp.randLen)
 			}
-			submit(c, seqs, false)
+			submit(c, seqs, false, -1)
 		}
 		close(jobs)
 		close(order)
@@ -441,11 +502,11 @@ func Run(r *rt.Run) error {
 			}
 		}
 		for i, s := range j.seqs {
-			emit(t, j.cfg, j.ids[i], s, res.obs[i], res.rep)
+			emit(t, j.cfg, j.ids[i], s, res.obs[i], res.rep, j.cut)
 			if j.doc {
 				t.Distinct("doc#" + s.key() + fmt.Sprint(i))
 			} else if len(s) >= 2 {
-				t.Distinct(j.cfg.String() + "#" + s.key())
+				t.Distinct(fmt.Sprintf("%s#%d#%s", j.cfg, j.cut, s.key()))
 			}
 		}
 	}
@@ -463,6 +524,7 @@ func Run(r *rt.Run) error {
 	r.Extra["systematic_sequences"] = nseq
 	r.Extra["systematic_len_min"] = minL
 	r.Extra["systematic_len_max"] = maxL
+	r.Extra["restart_sequences"] = nrestart
 	r.Extra["random_sequences"] = tp.nRandCfg * tp.nRandSeq
 	r.Extra["random_len"] = tp.randLen
 	r.Extra["node_errors_reported"] = x.NodeErrors
